@@ -1,8 +1,8 @@
 package main
 
 // Forced schedules for the in-band bytestream reader: ibb.Conn.Read against
-// handlePayload, closeNoNotify and Conn.Close (pinned behaviour of ibb/*; no
-// fixes here), plus the Expect/open hand-off of ibb/listen.go.
+// handlePayload, closeNoNotify and Conn.Close, plus the Expect/open hand-off of
+// ibb/listen.go.
 
 import (
 	"context"
@@ -22,7 +22,7 @@ import (
 	"verifharness/hx"
 )
 
-var ibbPark = []string{"ibb.read.checked", "ibb.read.woken", "ibb.payload.notify.before"}
+var ibbPark = []string{"ibb.read.checked", "ibb.read.woken", "ibb.payload.locked"}
 var ibbNote = []string{"serve.iter"}
 
 const peerFull = "peer@example.net/p"
@@ -43,14 +43,17 @@ type ibbRun struct {
 	conn    net.Conn
 	reader  *actor
 	rpos    string // none checked waiting woken
+	ropen   bool   // what the receive of a woken reader reported (false: channel closed)
 	rcap    int
 	rn      int
 	rerr    error
 	rpanic  string
-	spos    string // idle notify
+	spos    string // idle locked
+	pending int    // bytes of the packet whose handler is parked holding the lock
 	buf     int
+	tok     bool // a wake-up token is buffered in readReady
 	seq     int
-	closed  bool // readReady closed (either way)
+	closed  bool // the read side is closed (either way)
 	rclosed bool
 	lclosed bool
 	outs    []string
@@ -100,7 +103,10 @@ func (x *ibbRun) readReturned() {
 	case x.rerr == io.EOF && x.rn == 0:
 		x.outs = append(x.outs, "RdEOF")
 		if !x.closed {
-			x.fail("C06/ibb-read/eof-on-empty-packet", "Read returned io.EOF although the stream is not closed: a data packet without bytes woke the reader, which then read from the empty buffer")
+			x.fail("C06/ibb-read/eof-on-empty-packet", "Read returned io.EOF although the stream is not closed: a data packet without bytes (or a stale wake-up) woke the reader, which then read from the empty buffer")
+		}
+		if x.buf != 0 {
+			x.fail("C06/ibb-read/eof-with-data", fmt.Sprintf("Read returned io.EOF although %d bytes are buffered", x.buf))
 		}
 	case x.rerr == nil && x.rn > 0:
 		x.outs = append(x.outs, fmt.Sprintf("(RdData %d%%nat)", x.rn))
@@ -122,9 +128,9 @@ func (x *ibbRun) enabled(a ibbAction) bool {
 	case "wake":
 		return x.rpos == "woken" && x.spos == "idle"
 	case "data":
-		return x.spos == "idle" && !x.rclosed && a.N >= 0
+		return x.spos == "idle" && a.N >= 0
 	case "serve":
-		return x.spos == "notify"
+		return x.spos == "locked"
 	case "rclose":
 		return x.spos == "idle" && !x.closed
 	case "lclose":
@@ -137,11 +143,11 @@ func (x *ibbRun) enabled(a ibbAction) bool {
 
 var closeIQ = regexp.MustCompile(`<iq[^>]*id="([^"]+)"[^>]*><close `)
 
-func (x *ibbRun) readerWoken(what string) bool {
+func (x *ibbRun) readerWoken(what string, open bool) bool {
 	if x.expect(x.reader, "C06/ibb-read/not-woken", "C06/ibb-close/handler-panic", what, "ibb.read.woken") == "" {
 		return false
 	}
-	x.rpos = "woken"
+	x.rpos, x.ropen = "woken", open
 	return true
 }
 
@@ -165,7 +171,7 @@ func (x *ibbRun) do(a ibbAction) {
 		if e == "" {
 			return
 		}
-		x.label("IRead %d%%nat", a.N)
+		x.label("FRead %d%%nat", a.N)
 		if e == "ret" {
 			x.readReturned()
 		} else {
@@ -179,12 +185,19 @@ func (x *ibbRun) do(a ibbAction) {
 			x.fail("C06/harness/unexpected-step", "the parked reader could not be released")
 			return
 		}
-		x.label("IWait")
-		if x.closed {
-			if !x.readerWoken("a reader waiting on a closed stream was not released") {
+		x.label("FWait")
+		switch {
+		case x.tok:
+			if !x.readerWoken("a reader did not take the buffered wake-up", true) {
 				return
 			}
-		} else {
+			x.tok = false
+			x.classes["token-taken"] = true
+		case x.closed:
+			if !x.readerWoken("a reader waiting on a closed stream was not released", false) {
+				return
+			}
+		default:
 			if !waitBlocked(x.reader, watchdog, "chan receive") {
 				x.fail("C06/harness/unexpected-step", "the reader did not block on readReady")
 				return
@@ -196,25 +209,44 @@ func (x *ibbRun) do(a ibbAction) {
 			x.fail("C06/harness/unexpected-step", "the parked reader could not be released")
 			return
 		}
-		if x.expect(x.reader, "C06/ibb-read/call-stuck:return", "C06/ibb-close/handler-panic", "the woken Read did not return", "ret") == "" {
+		e := x.expect(x.reader, "C06/ibb-read/call-stuck:return", "C06/ibb-close/handler-panic", "the woken Read neither returned nor tested the buffer again", "ret", "ibb.read.checked")
+		if e == "" {
 			return
 		}
-		x.label("IWake %d%%nat", x.rcap)
-		x.readReturned()
+		x.label("FWake %d%%nat", x.rcap)
+		if e == "ret" {
+			x.readReturned()
+		} else {
+			x.rpos = "checked"
+			x.classes["retest"] = true
+			if x.buf != 0 {
+				x.fail("C06/ibb-read/waits-with-data", "Read decided to wait again although bytes are buffered")
+			}
+			if !x.ropen {
+				x.fail("C06/ibb-read/waits-on-closed", "Read waits again although the receive reported the channel closed")
+			}
+		}
 	case "data":
 		payload := base64.StdEncoding.EncodeToString([]byte(strings.Repeat("x", a.N)))
 		raw := fmt.Sprintf(`<iq type="set" id="d%d" from="%s" to="%s"><data xmlns="http://jabber.org/protocol/ibb" seq="%d" sid="s1">%s</data></iq>`, x.seq, peerFull, x.s.LocalAddr(), x.seq, payload)
-		x.seq++
 		if err := x.p.Send([]byte(raw)); err != nil {
 			x.fail("C06/ibb/serve-stall:not-reading", err.Error())
 			return
 		}
-		if x.expect(x.serve, "C06/ibb/handler-stall:data", "C06/ibb-close/handler-panic", "the data handler did not reach its notification", "ibb.payload.notify.before") == "" {
+		if x.closed {
+			// the stream is unknown to the handler now: the packet is refused, nothing else happens
+			if x.expect(x.serve, "C06/ibb/handler-stall:data-after-close", "C06/ibb-close/handler-panic:data-after-close", "a data packet for a closed stream was not refused", "@serve.iter") == "" {
+				return
+			}
+			x.classes["data-after-close"] = true
 			return
 		}
-		x.buf += a.N
-		x.spos = "notify"
-		x.label("IData %d%%nat", a.N)
+		if x.expect(x.serve, "C06/ibb/handler-stall:data", "C06/ibb-close/handler-panic", "the data handler did not take the read lock", "ibb.payload.locked") == "" {
+			return
+		}
+		x.pending = a.N
+		x.spos = "locked"
+		x.label("FData %d%%nat", a.N)
 		if a.N == 0 {
 			x.classes["empty-packet"] = true
 		}
@@ -223,19 +255,25 @@ func (x *ibbRun) do(a ibbAction) {
 			x.fail("C06/harness/unexpected-step", "the parked handler could not be released")
 			return
 		}
-		key := "C06/ibb/handler-stall:notify"
-		if x.expect(x.serve, key, "C06/ibb-close/handler-panic:data-after-close", "the data handler did not return after its notification", "@serve.iter") == "" {
+		if x.expect(x.serve, "C06/ibb/handler-stall:notify", "C06/ibb-close/handler-panic:data-after-close", "the data handler did not return after its notification", "@serve.iter") == "" {
 			return
 		}
 		x.spos = "idle"
-		x.label("INotify")
+		x.buf += x.pending
+		x.pending = 0
+		x.seq++
+		x.label("FCheck")
+		x.label("FNotify")
 		if x.rpos == "waiting" {
-			if !x.readerWoken("a reader blocked on readReady was not woken by the data notification") {
+			if !x.readerWoken("a reader blocked on readReady was not woken by the data notification", true) {
 				return
 			}
 			x.classes["woken-by-data"] = true
-		} else if x.rpos == "checked" {
-			x.classes["notify-in-window"] = true
+		} else {
+			if x.rpos == "checked" {
+				x.classes["notify-in-window"] = true
+			}
+			x.tok = true
 		}
 	case "rclose":
 		raw := fmt.Sprintf(`<iq type="set" id="c1" from="%s" to="%s"><close xmlns="http://jabber.org/protocol/ibb" sid="s1"/></iq>`, peerFull, x.s.LocalAddr())
@@ -247,8 +285,8 @@ func (x *ibbRun) do(a ibbAction) {
 			return
 		}
 		x.closed, x.rclosed = true, true
-		x.label("ICloseRemote")
-		if x.rpos == "waiting" && !x.readerWoken("a reader blocked on readReady was not released by the close") {
+		x.label("FCloseRemote")
+		if x.rpos == "waiting" && !x.readerWoken("a reader blocked on readReady was not released by the close", false) {
 			return
 		}
 	case "lclose":
@@ -285,8 +323,8 @@ func (x *ibbRun) do(a ibbAction) {
 			return
 		}
 		x.closed, x.lclosed = true, true
-		x.label("ICloseLocal")
-		if x.rpos == "waiting" && !x.readerWoken("a reader blocked on readReady was not released by the close") {
+		x.label("FCloseLocal")
+		if x.rpos == "waiting" && !x.readerWoken("a reader blocked on readReady was not released by the close", false) {
 			return
 		}
 	}
@@ -296,11 +334,14 @@ func (x *ibbRun) finish() {
 	if x.enabled(ibbAction{Op: "serve"}) {
 		x.do(ibbAction{Op: "serve"})
 	}
-	if x.enabled(ibbAction{Op: "wait"}) {
-		x.do(ibbAction{Op: "wait"})
-	}
-	if x.enabled(ibbAction{Op: "wake"}) {
-		x.do(ibbAction{Op: "wake"})
+	// drive a Read in progress as far as it goes on its own
+	for k := 0; k < 4 && !x.failed; k++ {
+		if x.enabled(ibbAction{Op: "wait"}) {
+			x.do(ibbAction{Op: "wait"})
+		}
+		if x.enabled(ibbAction{Op: "wake"}) {
+			x.do(ibbAction{Op: "wake"})
+		}
 	}
 	if x.failed {
 		return
@@ -313,8 +354,15 @@ func (x *ibbRun) finish() {
 	if x.enabled(ibbAction{Op: "rclose"}) {
 		x.do(ibbAction{Op: "rclose"})
 	}
-	if x.enabled(ibbAction{Op: "wake"}) {
-		x.do(ibbAction{Op: "wake"})
+	// after the close a data packet must be refused without harm
+	x.do(ibbAction{Op: "data", N: 2})
+	for k := 0; k < 4 && !x.failed; k++ {
+		if x.enabled(ibbAction{Op: "wait"}) {
+			x.do(ibbAction{Op: "wait"})
+		}
+		if x.enabled(ibbAction{Op: "wake"}) {
+			x.do(ibbAction{Op: "wake"})
+		}
 	}
 	if x.failed {
 		return
@@ -343,7 +391,7 @@ func (x *ibbRun) observe() ibbObs {
 }
 
 func (x *ibbRun) coqCase(o ibbObs) string {
-	return fmt.Sprintf("mkibbcase [%s] [%s] %d%%nat %d%%nat", x.labelString(), strings.Join(o.Outs, ";"), o.Rd, o.Buf)
+	return fmt.Sprintf("mkibbfcase [%s] [%s] %d%%nat %d%%nat", x.labelString(), strings.Join(o.Outs, ";"), o.Rd, o.Buf)
 }
 
 // ---- driver ----
@@ -443,12 +491,16 @@ func (x *runner) ibbWalk(r *hx.Rand, steps int) {
 }
 
 var ibbCorpus = [][]ibbAction{
-	// the notification falls between the reader's empty-buffer check and its wait
-	{{Op: "read", N: 4}, {Op: "data", N: 3}, {Op: "serve"}, {Op: "wait"}},
-	// an empty data packet wakes the reader
-	{{Op: "read", N: 4}, {Op: "wait"}, {Op: "data", N: 0}, {Op: "serve"}, {Op: "wake"}},
-	// data after the local Close
+	// the notification falls between the reader's empty-buffer check and its wait (lost before 74610ee)
+	{{Op: "read", N: 4}, {Op: "data", N: 3}, {Op: "serve"}, {Op: "wait"}, {Op: "snap"}, {Op: "wake"}},
+	// an empty data packet wakes the reader (io.EOF on an open stream before 97bbeef)
+	{{Op: "read", N: 4}, {Op: "wait"}, {Op: "data", N: 0}, {Op: "serve"}, {Op: "wake"}, {Op: "snap"}, {Op: "wait"}},
+	// data after the local Close (panic of the serve goroutine before 3ea7094)
 	{{Op: "lclose"}, {Op: "data", N: 3}, {Op: "serve"}},
+	// a stale wake-up: data consumed without waiting, then a Read on the empty buffer
+	{{Op: "data", N: 2}, {Op: "serve"}, {Op: "read", N: 4}, {Op: "read", N: 4}, {Op: "wait"}, {Op: "wake"}, {Op: "wait"}, {Op: "snap"}},
+	// data buffered at the close is still delivered, then EOF
+	{{Op: "data", N: 5}, {Op: "serve"}, {Op: "lclose"}, {Op: "read", N: 4}, {Op: "read", N: 4}, {Op: "read", N: 4}, {Op: "wait"}, {Op: "wake"}},
 	// ordinary orders
 	{{Op: "read", N: 4}, {Op: "wait"}, {Op: "data", N: 3}, {Op: "serve"}, {Op: "wake"}, {Op: "snap"}, {Op: "data", N: 6}, {Op: "serve"}, {Op: "read", N: 4}, {Op: "read", N: 4}},
 	{{Op: "read", N: 4}, {Op: "wait"}, {Op: "rclose"}, {Op: "wake"}},
@@ -456,9 +508,11 @@ var ibbCorpus = [][]ibbAction{
 	{{Op: "read", N: 4}, {Op: "wait"}, {Op: "lclose"}, {Op: "wake"}},
 }
 
-// ibbExpectStall: Listener.Expect gives up (context cancelled) but leaves its
-// entry; the matching open request then blocks handleOpen — and with it the
-// serve loop — on a channel nobody receives from.
+// ibbExpectCancelled: Listener.Expect gives up (context cancelled); an open
+// request for that session must then be accepted like any other (an Accept call
+// is pending). Before the repair Expect left its entry behind and handleOpen
+// blocked on the abandoned channel, holding the listener's lock: the serve loop
+// was stalled for good.
 func (x *runner) ibbExpectStall() {
 	var b base
 	h := &ibb.Handler{}
@@ -467,13 +521,24 @@ func (x *runner) ibbExpectStall() {
 		return
 	}
 	defer b.stop()
-	cc := map[string]interface{}{"mode": "ibb-expect", "scenario": "Expect(ctx, from, sid); cancel ctx; open(from, sid) arrives; next element"}
+	cc := map[string]interface{}{"mode": "ibb-expect", "scenario": "Accept pending; Expect(ctx, from, sid) blocked; cancel ctx; open(from, sid) arrives; next element"}
 	x.res.Count("ibb-expect", true, "ibb/expect-cancelled")
 	l := h.Listen(b.s)
+	acc := make(chan net.Conn, 1)
+	go func() { c, _ := l.Accept(); acc <- c }()
 	ctx, cancel := context.WithCancel(context.Background())
+	defer cancel()
 	ret := make(chan error, 1)
-	go func() { _, err := l.Expect(ctx, jid.MustParse(peerFull), "s9"); ret <- err }()
-	time.Sleep(2 * time.Millisecond)
+	ea := newActor("expect")
+	go func() {
+		b.g.bind(ea)
+		_, err := l.Expect(ctx, jid.MustParse(peerFull), "s9")
+		ret <- err
+	}()
+	if !waitBlocked(ea, watchdog, "select") {
+		x.res.Fail("C06/harness/unexpected-step", "Expect did not block in its select", cc)
+		return
+	}
 	cancel()
 	select {
 	case <-ret:
@@ -484,6 +549,51 @@ func (x *runner) ibbExpectStall() {
 	open := `<iq type="set" id="o9" from="` + peerFull + `" to="` + b.s.LocalAddr().String() + `"><open xmlns="http://jabber.org/protocol/ibb" sid="s9" block-size="4096" stanza="iq"/></iq>`
 	b.p.Send([]byte(open))
 	if e := await(b.serve, watchdog); e != "@serve.iter" {
-		x.res.Fail("C06/ibb-expect/handler-stall:cancelled-expect", "an open request for a stream whose Expect call was cancelled blocks the serve loop for good (handleOpen sends on the abandoned channel while holding the listener's lock)", cc)
+		x.res.Fail("C06/ibb-expect/handler-stall:cancelled-expect", "an open request for a stream whose Expect call was cancelled blocks the serve loop for good although an Accept call is pending (handleOpen sends on the abandoned channel while holding the listener's lock)", cc)
+		return
+	}
+	select {
+	case c := <-acc:
+		if c == nil {
+			x.res.Fail("C06/ibb-expect/wrong-outcome", "Accept returned no connection for the stream whose Expect call was cancelled", cc)
+		}
+	case <-time.After(watchdog):
+		x.res.Fail("C06/ibb-expect/stream-lost", "the stream whose Expect call was cancelled was acknowledged to the peer but handed to nobody", cc)
+	}
+}
+
+// ibbOpenWithoutAccept: an open request arrives while no Accept (or Expect)
+// call is pending. handleOpen acknowledges it and then hands the connection
+// over on an unbuffered channel: the serve goroutine is blocked (nothing else
+// is processed on the session) until the application calls Accept.
+func (x *runner) ibbOpenWithoutAccept() {
+	var b base
+	h := &ibb.Handler{}
+	if err := b.start(nil, ibbNote, mux.New(stanza.NSClient, ibb.Handle(h))); err != nil {
+		x.res.Fail("C06/harness/setup", err.Error(), nil)
+		return
+	}
+	defer b.stop()
+	cc := map[string]interface{}{"mode": "ibb-accept", "scenario": "Listen; open arrives; nobody has called Accept yet; then Accept"}
+	x.res.Count("ibb-accept", true, "ibb/open-without-accept")
+	l := h.Listen(b.s)
+	open := `<iq type="set" id="o8" from="` + peerFull + `" to="` + b.s.LocalAddr().String() + `"><open xmlns="http://jabber.org/protocol/ibb" sid="s8" block-size="4096" stanza="iq"/></iq>`
+	b.p.Send([]byte(open))
+	blocked := waitBlockedOrEvent(b.serve, watchdog, "chan send")
+	if blocked {
+		x.res.Fail("C06/ibb-accept/handler-stall:until-accept", "an open request that arrives while no Accept call is pending blocks the serve goroutine in handleOpen (unbuffered hand-off) until the application calls Accept; until then no other element of the session is processed", cc)
+	}
+	acc := make(chan net.Conn, 1)
+	go func() { c, _ := l.Accept(); acc <- c }()
+	select {
+	case <-acc:
+	case <-time.After(watchdog):
+		x.res.Fail("C06/ibb-accept/stream-lost", "Accept did not get the stream that was opened before it was called", cc)
+		return
+	}
+	if blocked {
+		if e := await(b.serve, watchdog); e != "@serve.iter" {
+			x.res.Fail("C06/ibb-accept/handler-stall:for-good", "the serve loop did not continue after Accept took the stream", cc)
+		}
 	}
 }
